@@ -13,12 +13,13 @@
      front of an entry never grows, shrinks at every pop commit, and pop never answers None while the entry is
      there.  Missing: the fairness argument (a producer between swap and store eventually stores; the
      consumer keeps popping).
-   * C19_head_report_partial: claims (a)-(d) hold for the model, where `ptr::eq(tail, prev)` is node identity.
-     Not modelled: the allocator re-using the address of a freed node.  The window in which this matters
-     (prev already freed when the producer reads the consumer position) is reachable, see
-     C19_stale_prev_window_reachable, and with re-use claim (c) (no spurious `true`) is refuted for the
-     address comparison: C19_head_report_c_refuted_under_address_reuse (replayed on the real code).
-     Claims (a), (b) (no missed head) and (d) compare with a node that is still the stub, hence not freed. *)
+
+   The head report (iv) is proved in full for push as it is since /repo b8fae1d (finding F16: the consumer position
+   is read before the node is linked): C19_head_report for node identities, C19_head_report_compares_live_nodes
+   lifts it to the address comparison the code makes, allocator re-use included.  For push as it was before
+   (read after the store) claim (c) is refuted under address re-use:
+   C19_head_report_c_refuted_under_address_reuse (the witness was replayed on the real code by
+   harness/src/bin/q_list_aba.rs, which now passes and catches a revert of the fix). *)
 From Coq Require Import List Arith Bool ZArith.
 Import ListNotations.
 Require Import MayV.Queue.ListV1Model MayV.Queue.ListV1Inv MayV.Queue.ListV1Thm MayV.Queue.ListV1Accept MayV.Queue.ListV1Aba.
@@ -112,7 +113,7 @@ Theorem C19_chain_shape :
      a < b /\ inch (nodes s a) = true /\ (forall x, inch (nodes s x) = true -> ~ (a < x /\ x < b)) /\
      (stage (nodes s b) = 0 -> nnext (nodes s a) = Some b /\ nprev (nodes s b) = Some a) /\
      (1 <= stage (nodes s b) -> nnext (nodes s a) = None /\
-        exists p, qn (P s p) = b /\ qprev (P s p) = a /\ (qp (P s p) = Q1 \/ qp (P s p) = Q2))) /\
+        exists p, qn (P s p) = b /\ qprev (P s p) = a /\ (qp (P s p) = Q1 \/ qp (P s p) = Q2 \/ qp (P s p) = Q3))) /\
   (forall a x, inch (nodes s a) = true -> nnext (nodes s a) = Some x -> inch (nodes s x) = true /\ gpred (nodes s x) = a).
 Proof. exact chain_shape. Qed.
 Print Assumptions C19_chain_shape.
@@ -121,46 +122,52 @@ Print Assumptions C19_chain_shape.
    the stub has not yet executed its `prev.next` store *)
 Theorem C19_consumer_spins_only_on_pending_store :
   forall s, Reach s -> spinning (kp s) -> nnext (nodes s (tail s)) = None ->
-  exists p, (qp (P s p) = Q1 \/ qp (P s p) = Q2) /\ qprev (P s p) = tail s.
+  exists p, (qp (P s p) = Q1 \/ qp (P s p) = Q2 \/ qp (P s p) = Q3) /\ qprev (P s p) = tail s.
 Proof. exact consumer_spins_only_on_pending_store. Qed.
 Print Assumptions C19_consumer_spins_only_on_pending_store.
 
 (* --------------------------------------------------------------------------------------------- (iv) *)
 
-(* the head report, at the producer's read of the consumer position (r is the flag push returns):
-   (a) list empty at the swap and own entry not yet consumed  =>  is_head
-   (b) not is_head  =>  list not empty at the swap, or own entry already consumed
-   (c) is_head  =>  own entry unconsumed and every earlier entry consumed
-   (d) no consumer step between swap and read  =>  is_head <-> list empty at the swap
-   PARTIAL with respect to the code: pointer equality is node identity (no address re-use), see above. *)
-Theorem C19_head_report_partial :
-  forall s p s', Reach s -> qp (P s p) = Q3 -> step s (PStep p) = Some s' ->
+(* the head report, at the producer's read of the consumer position (r is the flag push returns).  The read
+   precedes the `prev.next` store, so the own entry is still unconsumed and `prev` is still a chain member:
+   (a) list empty at the swap  =>  is_head                 (the timer thread is never left sleeping past a new head)
+   (b) not is_head  =>  list not empty at the swap
+   (c) is_head  =>  every earlier entry is consumed (and the own one is not)
+   (d) no consumer step between swap and read  =>  is_head <-> list empty at the swap *)
+Theorem C19_head_report :
+  forall s p s', Reach s -> qp (P s p) = Q2 -> step s (PStep p) = Some s' ->
   let x := P s p in let n := qn x in let r := qhead (P s' p) in
-  (qempty x = true -> cons (nodes s n) = 0 -> r = true) /\
-  (r = false -> qempty x = false \/ cons (nodes s n) = 1) /\
-  (r = true -> cons (nodes s n) = 0 /\ inch (nodes s n) = true /\ forall m, 1 <= m -> m < n -> cons (nodes s m) = 1) /\
+  (cons (nodes s n) = 0 /\ inch (nodes s n) = true /\ inch (nodes s (qprev x)) = true /\ freed (nodes s (qprev x)) = false) /\
+  (qempty x = true -> r = true) /\
+  (r = false -> qempty x = false) /\
+  (r = true -> forall m, 1 <= m -> m < n -> cons (nodes s m) = 1) /\
   (qclk x = kclock s -> r = qempty x).
 Proof. exact head_report. Qed.
-Print Assumptions C19_head_report_partial.
+Print Assumptions C19_head_report.
 
-(* Claim (c) for the comparison the code really makes (addresses): REFUTED when the allocator hands the
-   address of the freed `prev` node to a later node that has become the stub.  Overlay model with addresses
-   in Queue/ListV1Aba.v; the witness schedule was replayed on the real list (harness/src/bin/q_list_aba.rs:
-   the oracle "is_head=true but the entry was already consumed" fires).  Benign for the timers (one
-   superfluous install / wake-up), but a violation of the property as worded. *)
-Theorem C19_head_report_c_refuted_under_address_reuse :
-  exists x, Reach2 x /\
-    match qp (P (fst x) 1) with Q3 => true | _ => false end = true /\
-    code_flag x 1 = true /\ model_flag x 1 = false /\
-    cons (nodes (fst x) (qn (P (fst x) 1))) = 1 /\ monitors_ok (fst x) = true.
-Proof. exact head_report_c_refuted_under_address_reuse. Qed.
-Print Assumptions C19_head_report_c_refuted_under_address_reuse.
+(* addresses: in the overlay where the allocator gives every new node any address not held by an allocated,
+   unfreed node (re-use of freed addresses allowed), the comparison the code makes at that read, on addresses,
+   equals the comparison of node identities the model makes - both compared nodes are live *)
+Theorem C19_head_report_compares_live_nodes :
+  forall x p, Reach2 x -> qp (P (fst x) p) = Q2 -> code_flag x p = model_flag x p.
+Proof. exact code_flag_is_model_flag. Qed.
+Print Assumptions C19_head_report_compares_live_nodes.
 
-(* every state of the address overlay projects to a reachable state of the model *)
 Theorem C19_address_overlay_projects :
   forall x, Reach2 x -> Reach (fst x).
 Proof. exact reach2_reach. Qed.
 Print Assumptions C19_address_overlay_projects.
+
+(* what the fix repaired: with push as it was before /repo b8fae1d (`tail` read after the `prev.next` store,
+   step_old) claim (c) is REFUTED for the address comparison when the allocator hands the address of the freed
+   `prev` node to a later node that has become the stub: is_head = true for an entry consumed long ago. *)
+Theorem C19_head_report_c_refuted_under_address_reuse :
+  exists x, Reach2_old x /\
+    match qp (P (fst x) 1) with Q3 => true | _ => false end = true /\
+    code_flag x 1 = true /\ model_flag x 1 = false /\
+    cons (nodes (fst x) (qn (P (fst x) 1))) = 1.
+Proof. exact head_report_c_refuted_under_address_reuse. Qed.
+Print Assumptions C19_head_report_c_refuted_under_address_reuse.
 
 (* ---------------------------------------------------------------------------------------------- (v) *)
 
@@ -238,37 +245,44 @@ Proof. apply (at_state_reach [Push 0; PStep 0; Pop; KStep false]). vm_compute. r
 (* a producer at its read of the consumer position that found the list empty, undisturbed by the consumer *)
 Example C19_ex_head_report_true :
   exists s, Reach s /\
-    (match qp (P s 0) with Q3 => true | _ => false end && qempty (P s 0) && Nat.eqb (qclk (P s 0)) (kclock s) &&
+    (match qp (P s 0) with Q2 => true | _ => false end && qempty (P s 0) && Nat.eqb (qclk (P s 0)) (kclock s) &&
      match step s (PStep 0) with Some s' => qhead (P s' 0) | None => false end) = true.
-Proof. apply (at_state_reach [Push 0; PStep 0; PStep 0; PStep 0]). vm_compute. reflexivity. Qed.
+Proof. apply (at_state_reach [Push 0; PStep 0; PStep 0]). vm_compute. reflexivity. Qed.
 
-(* why the head report is not "is the first unconsumed entry": the predecessor is removed between the swap and
-   the read, the entry is now the first unconsumed one, yet is_head = false (no wake-up is lost: the entry that
-   was head before is gone, the timer thread recomputes when it runs) *)
+(* why the head report is not "is the first unconsumed entry": the predecessor is removed after the read, the
+   entry is then the first unconsumed one, yet is_head = false (no wake-up is lost: the entry that was head
+   before is gone, the timer thread recomputes when it runs) *)
 Example C19_ex_first_unconsumed_may_report_false :
   exists s, Reach s /\
     (Nat.eqb (cons (nodes s 1)) 1 && Nat.eqb (cons (nodes s 2)) 0 && Nat.eqb (gpred (nodes s 2)) (tail s) &&
      negb (qhead (P s 1)) && match qp (P s 1) with QIdle => true | _ => false end && ret (nodes s 2)) = true.
 Proof.
-  apply (at_state_reach (push 0 ++ [Push 1; PStep 1; PStep 1; PStep 1] ++ [Remove 1; KStep false; KStep false; PStep 1])).
+  apply (at_state_reach (push 0 ++ [Push 1; PStep 1; PStep 1; PStep 1; PStep 1] ++ [Remove 1; KStep false; KStep false])).
   vm_compute. reflexivity.
 Qed.
 
-(* the window the model's node identities abstract from: a producer about to compare `tail` with its `prev`
-   whose node has already been freed (popped, passed, handle dropped); if the allocator handed that address to
-   a later node that has meanwhile become the stub, the real comparison would be spuriously true *)
-Example C19_stale_prev_window_reachable :
-  exists s, Reach s /\
-    (match qp (P s 1) with Q3 => true | _ => false end && freed (nodes s (qprev (P s 1))) && monitors_ok s) = true.
+(* the overlay with addresses: a reachable state in which a freed address has been re-used (node 3 lives where
+   node 1 lived) and a producer is at its read - the hypotheses of C19_head_report_compares_live_nodes *)
+Example C19_ex_address_reuse :
+  exists x, Reach2 x /\
+    (match qp (P (fst x) 2) with Q2 => true | _ => false end && Nat.eqb (snd x 3) (snd x 1) && freed (nodes (fst x) 1) &&
+     negb (freed (nodes (fst x) 3))) = true.
 Proof.
-  apply (at_state_reach (push 0 ++ [Push 1; PStep 1; PStep 1; PStep 1] ++ popk ++ popk ++ [DropH 1])).
-  vm_compute. reflexivity.
+  pose (push2 := fun p c => [(Push p, 0); (PStep p, c); (PStep p, 0); (PStep p, 0); (PStep p, 0)]).
+  pose (pop2 := [(Pop, 0); (KStep false, 0); (KStep false, 0); (KStep false, 0)]).
+  pose (sched := push2 0 1 ++ push2 1 2 ++ pop2 ++ pop2 ++ [(DropH 1, 0)] ++ [(Push 2, 0); (PStep 2, 1); (PStep 2, 0)]).
+  assert (H : exists x, run2 init2 sched = Some x /\
+      (match qp (P (fst x) 2) with Q2 => true | _ => false end && Nat.eqb (snd x 3) (snd x 1) && freed (nodes (fst x) 1) &&
+       negb (freed (nodes (fst x) 3))) = true).
+  { destruct (run2 init2 sched) as [x|] eqn:E; [|vm_compute in E; discriminate].
+    exists x. split; [reflexivity|]. vm_compute in E. inversion E; subst. vm_compute. reflexivity. }
+  destruct H as (x & E & Hx). exists x. split; [eapply run2_reach; [apply R20 | exact E] | exact Hx].
 Qed.
 
 (* the acceptor accepts a small hand-written trace (push of tag 100 by actor 1 on an empty list; pop by actor 2) *)
 Example C19_ex_acceptor :
   (match accept_all a_init
-     [[1; 1; 0; 100]; [20; 1; 1; 4096]; [21; 1; 2; 8192]; [22; 1; 3; 0]; [2; 1; 1; 8192];
+     [[1; 1; 0; 100]; [20; 1; 1; 4096]; [22; 1; 3; 0]; [21; 1; 2; 8192]; [2; 1; 1; 8192];
       [3; 2; 0; 0]; [29; 2; 1; 8192]; [30; 2; 2; 8192]; [31; 2; 3; 8192]; [4; 2; 1; 100]]%Z
    with Some a => a_final a | None => false end) = true.
 Proof. vm_compute. reflexivity. Qed.
